@@ -366,3 +366,13 @@ func shareRule(w *World, r *Report, check func(*World, *Report), from, to string
 	}
 	return n
 }
+
+// HasRule: the rule was declared for this report.
+func (r *Report) HasRule(name string) bool {
+	for _, x := range r.Rules {
+		if x.ID == name {
+			return true
+		}
+	}
+	return false
+}
